@@ -388,6 +388,23 @@ def fit_world(args, scratch):
         try:
             if 'test_all' in stages:
                 probs += rows.check_negloglike('%s/negloglike_comp%d.dat' % (out_dir, comp), uniq, kind, data, stats)
+                if ((args.get('opts') or {}).get('test_all') or {}).get('ignore_previous_eqns') and comp > 1 and not probs:
+                    # row i refers to function i, also for the rows the option is meant to skip: a unique function that already is
+                    # a unique function of a lower complexity must carry the "skipped" row (inf, no parameters), whichever rank
+                    # owns it and whenever that rank read the shared list of earlier equations
+                    prev = set()
+                    for k_ in range(1, comp):
+                        try:
+                            prev.update(rows.read_lines('%s/unique_equations_%d.txt' % (libdir(scratch, runname, k_), k_)))
+                        except FileNotFoundError:
+                            pass
+                    tab = rows.read_table('%s/negloglike_comp%d.dat' % (out_dir, comp))
+                    for i_, (row_, f_) in enumerate(zip(tab, uniq)):
+                        if f_ in prev:
+                            stats['skipped_rows_checked'] = stats.get('skipped_rows_checked', 0) + 1
+                            if not (row_[0] == float('inf') and all(v_ == 0 for v_ in row_[1:])):
+                                probs.append(('repeat-not-skipped', 'negloglike', i_, f_, row_[0]))
+                                break
             if 'fisher' in stages:
                 probs += rows.check_codelen('%s/codelen_comp%d_deriv.dat' % (out_dir, comp), uniq, kind, data, stats)
                 probs += rows.check_derivs('%s/derivs_comp%d.dat' % (out_dir, comp), '%s/codelen_comp%d_deriv.dat' % (out_dir, comp), uniq, stats)
